@@ -248,7 +248,12 @@ class Tokenizer:
                                     else:
                                         name = 'ATKEYWORD'
 
-                            value = found  # should not contain unicode escape (?)
+                            if 'ATKEYWORD' == name:
+                                # unknown here but maybe known in context
+                                # (e.g. margin boxes), resolve unicode escapes
+                                value = self.unicodesub(_repl, found)
+                            else:
+                                value = found
 
                         if self._doComments or (
                             not self._doComments and name != 'COMMENT'
